@@ -1,7 +1,7 @@
 """Per-property metadata for the driver: claimed level when every function under contract is proved, explanation, assumptions."""
 
 PROPS = {
- 'C01': {'level': 'proof',
+ 'C01': {'level': 'proof', 'ready': True,
          'explanation': 'dfa_accepts_word, epsilon_closure (both typed entry points), _nfa_cache and nfa_accepts_word are verified against the textbook semantics (dhat, least-fixpoint epsilon closure Eclo, Nhat) by VCs generated from the current source; NFA.E is a one-line wrapper of epsilon_closure. Bounded stand-in cases are an extra cross-check of the contracts against an independent path-search oracle and are not counted.',
          'claim': 'Every obligation generated from the current source of the acceptance functions is discharged for all automata and all words (no bound); a change that breaks the property fails a named obligation, and the small-scope search supplies the failing input.',
          'note': 'Trusted: the VC generator and its table of Python semantics, z3/cvc5, the induction schema of gvc/induct.py; Nhat/Eclo/dhat are the textbook definitions (def / least-fixpoint axioms), all other theory facts are proved as lemmas on every run.',
